@@ -517,8 +517,10 @@ def judge(ctx, sc, R, S):
             d = res[1]
             ctx.report(f'probe-failed:{fe}:{res[0]}' + (f':{type(d).__name__}' if isinstance(d, BaseException) else ''),
                        f'after the history a fresh Interest for /{key} could not be satisfied: {res!r}', w)
-    if R.pit_left:
-        ctx.report(f'pit-not-empty-at-quiescence:{fe}', f'{R.pit_left} pending-table nodes ({R.stale} entries) remain after every Interest finished', w)
+    if R.stale:
+        ctx.report(f'pit-not-empty-at-quiescence:{fe}', f'{R.stale} pending entries (in {R.pit_left} table nodes) remain after every Interest finished', w)
+    elif R.pit_left:
+        ctx.event('observation:empty-table-nodes-left')       # empty nodes hold nothing pending
     if hasattr(R, 'main_loop_error'):
         ctx.report(f'main-loop-error:{fe}:{type(R.main_loop_error).__name__}', f'main_loop ended with {R.main_loop_error!r}', w)
     # interleaving signature
